@@ -22,6 +22,9 @@ fn in_own_module(t: &TypeSpec, v: u8) -> bool {
     t.life == Life::Singleton && t.fallible_of(v).is_some() && !t.prebuilt
 }
 
+/// Generic wrappers: (letter, lifecycle). `GV<'a, T>` (kind 3) also carries a lifetime.
+pub const GEN_KINDS: [(&str, &str); 4] = [("S", "singleton"), ("R", "request_scoped"), ("T", "transient"), ("V", "request_scoped")];
+
 fn lifecycle_attr(l: Life) -> &'static str {
     match l {
         Life::Singleton => "singleton",
@@ -47,6 +50,8 @@ fn params_src(k: usize, spec: &AppSpec, inputs: &[(usize, Mode)], src: Option<us
         let lt = if src == Some(*ty) { "'a " } else { "" };
         let (sig, m) = match mode {
             Mode::Ref => (format!("a{n}: &{lt}{tn}"), "ref"),
+            // (a value that is itself holding a reference, taken by value and kept: its lifetime is the output's)
+            Mode::Move if src == Some(*ty) && t.view_of.is_some() => (format!("a{n}: T{ty}<'a>"), "move"),
             Mode::Move => (format!("a{n}: {tn}"), "move"),
             Mode::Mut => (format!("a{n}: &{lt}mut {tn}"), "mut"),
         };
@@ -78,9 +83,11 @@ pub fn emit_module(k: usize, spec: &AppSpec) -> String {
         } else {
             let extra = if t.send_sync { "" } else { ", pub _ns: std::marker::PhantomData<std::rc::Rc<()>>" };
             if let Some(j) = t.view_of {
-                // holds a reference to the value its constructor borrowed
-                let _ = writeln!(s, "#[derive(Debug)]\npub struct T{i}<'a> {{ pub tag: crate::rt::Tag, pub src: &'a T{j}{extra} }}");
-                if t.is_clone {
+                // holds a reference to the value its constructor borrowed (or the reference-holding value it took)
+                let by_value = t.inputs.iter().any(|(x, m)| *x == j && *m == Mode::Move) && spec.types[j].view_of.is_some();
+                let field = if by_value { format!("T{j}<'a>") } else { format!("&'a T{j}") };
+                let _ = writeln!(s, "#[derive(Debug)]\npub struct T{i}<'a> {{ pub tag: crate::rt::Tag, pub src: {field}{extra} }}");
+                if t.is_clone && !by_value {
                     let init = if t.send_sync { "" } else { ", _ns: std::marker::PhantomData" };
                     let _ = writeln!(s, "impl<'a> Clone for T{i}<'a> {{ fn clone(&self) -> Self {{ T{i} {{ tag: self.tag.cloned(), src: self.src{init} }} }} }}");
                 }
@@ -158,9 +165,15 @@ pub fn emit_module(k: usize, spec: &AppSpec) -> String {
         }
     }
     // ---- generic wrappers: one generic constructor per lifecycle, instantiated by the consumers' signatures
-    let used_kinds: std::collections::BTreeSet<u8> = spec.comps.iter().flat_map(|c| c.gens.iter().map(|(k, _)| *k % 3)).collect();
+    let used_kinds: std::collections::BTreeSet<u8> = spec.comps.iter().flat_map(|c| c.gens.iter().map(|(k, _)| *k % 4)).collect();
     for kind in &used_kinds {
-        let (letter, life) = [("S", "singleton"), ("R", "request_scoped"), ("T", "transient")][*kind as usize];
+        let (letter, life) = GEN_KINDS[*kind as usize];
+        if *kind == 3 {
+            // generic *and* holding on to its input: `GV<'a, T>`
+            let _ = writeln!(s, "pub struct GV<'a, T>(pub &'a T);");
+            let _ = writeln!(s, "#[pavex::{life}(id = \"M{k}_GV\")]\npub fn g_v<'a, T>(inner: &'a T) -> GV<'a, T> {{\n    GV(inner)\n}}\n");
+            continue;
+        }
         let _ = writeln!(s, "pub struct G{letter}<T>(pub std::marker::PhantomData<fn() -> T>);");
         let _ = writeln!(s, "#[pavex::{life}(id = \"M{k}_G{letter}\")]\npub fn g_{}<T>(inner: &T) -> G{letter}<T> {{\n    let _ = inner;\n    G{letter}(std::marker::PhantomData)\n}}\n", letter.to_lowercase());
     }
@@ -194,7 +207,8 @@ pub fn emit_module(k: usize, spec: &AppSpec) -> String {
             sig.push_str("gp: &GP<T0>, ");
         }
         for (n, (kind, inner)) in c.gens.iter().enumerate() {
-            let _ = write!(sig, "g{n}: &G{}<{}>, ", ["S", "R", "T"][*kind as usize % 3], ty_in_sig(spec, *inner));
+            let lt = if *kind % 4 == 3 { "'_, " } else { "" };
+            let _ = write!(sig, "g{n}: &G{}<{lt}{}>, ", GEN_KINDS[*kind as usize % 4].0, ty_in_sig(spec, *inner));
         }
         let asy = if c.is_async { "async " } else { "" };
         match &c.kind {
@@ -308,9 +322,9 @@ pub fn emit_module(k: usize, spec: &AppSpec) -> String {
     // ---- blueprint
     s.push_str("pub fn blueprint() -> Blueprint {\n    let mut bp0 = Blueprint::new();\n");
     {
-        let used_kinds: std::collections::BTreeSet<u8> = spec.comps.iter().flat_map(|c| c.gens.iter().map(|(k, _)| *k % 3)).collect();
+        let used_kinds: std::collections::BTreeSet<u8> = spec.comps.iter().flat_map(|c| c.gens.iter().map(|(k, _)| *k % 4)).collect();
         for kind in used_kinds {
-            let _ = writeln!(s, "    bp0.constructor(M{k}_G{});", ["S", "R", "T"][kind as usize]);
+            let _ = writeln!(s, "    bp0.constructor(M{k}_G{});", GEN_KINDS[kind as usize].0);
         }
     }
     if spec.peel && !spec.types.is_empty() && spec.comps.iter().any(|c| c.kind == CompKind::Handler) {
